@@ -476,7 +476,7 @@ fn enumerated(seed: u64, tier: Tier) -> Vec<Case> {
             for alias in 0..4u8 {
                 v.push(mk(Fault::OffsetPastEof { h: hsel(i), alias }));
             }
-            for at in [0u32, 0x0400_0000, 0x1000_0000, 0x8000_0000, 0xc000_0000, 0xffff_0000, 0xffff_ffff] {
+            for at in [0u32, 0x0400_0000, 0x1000_0000, 0x8000_0000, 0x9000_0000, 0xa000_0000, 0xb000_0000, 0xc000_0000, 0xd000_0000, 0xe000_0000, 0xe800_0000, 0xf000_0000, 0xf400_0000, 0xf800_0000, 0xfc00_0000, 0xfe00_0000, 0xff00_0000, 0xffff_0000, 0xffff_ffff] {
                 v.push(mk(Fault::Truncated { h: hsel(i), at }));
             }
         }
@@ -515,6 +515,26 @@ fn enumerated(seed: u64, tier: Tier) -> Vec<Case> {
                 let at = (((k << 32) + total - 1) / total).min(u32::MAX as u64) as u32;
                 v.push(Case { chain: chain.clone(), nfiles: 3, cb: Callback::CsvDump, start: None, end: None, fault: Fault::Truncated { h: hsel(5), at }, stale_tmp: false });
             }
+        }
+    }
+    {
+        // a block that ENDS in a BIP144 (segwit) transaction, cut at every byte of its last 300 bytes: the marker / flag,
+        // the inputs, the outputs, the witness stacks and the lock time of the final transaction
+        let scripts: Vec<Vec<u8>> = (0..4usize).map(|i| { let mut s = vec![0x00, 0x14]; s.extend([0x50 + i as u8; 20]); s }).collect();
+        let mut sw = vpmodel::spec::chain_from_scripts(vpmodel::chain::Coin::Bitcoin, &scripts, &[900, 4000], 1, 2, 0, 1_500_000_000);
+        for b in sw.blocks.iter_mut() {
+            if let Some(t) = b.txs.last_mut() {
+                t.segwit = true;
+                t.inputs[0].witness = vec![vec![0x30; 71], vec![0x02; 33]];
+            }
+        }
+        let built = sw.build();
+        let nb = built.blocks.len() as u64;
+        let total = built.blocks[nb as usize - 1].1.ser().len() as u64 + 8;
+        let hsel_last = (((nb - 1) * 65536 + nb - 1) / nb) as u16;
+        for k in total.saturating_sub(300)..total {
+            let at = (((k << 32) + total - 1) / total).min(u32::MAX as u64) as u32;
+            v.push(Case { chain: sw.clone(), nfiles: 1, cb: Callback::CsvDump, start: None, end: None, fault: Fault::Truncated { h: hsel_last, at }, stale_tmp: false });
         }
     }
     if tier == Tier::Thorough {
